@@ -78,7 +78,13 @@ def _perturb_environment(case):
     os.environ["TZ"] = tz
     time.tzset()
     os.umask(um)
-    return f"cols={cols},tz={tz},umask={um:03o}"
+    # what an earlier '-v' command or a host application leaves behind in the process: DEBUG logging with the package's
+    # debug flag on (1 case in 6), observers registered on the documented hooks (1 case in 5) - applied by drive.mod()
+    verbose = (h // 216) % 6 == 0
+    hooks = (h // 1296) % 5 == 0
+    os.environ["VF_VERBOSE"] = "1" if verbose else "0"
+    os.environ["VF_HOOKS"] = "1" if hooks else "0"
+    return f"cols={cols},tz={tz},umask={um:03o}" + (",verbose" if verbose else "") + (",hooks" if hooks else "")
 
 
 def _child_main(fn, case, scratch, wfd, mem_limit):
